@@ -32,7 +32,7 @@ for p in props:
     })
 man = {
     "version": 1,
-    "setup_cmd": "cd lean && lake build",
+    "setup_cmd": "./setup.sh",
     "hooks": {"guard": "ODXTOOLS_VERIF", "enable": "no hooks are needed: the harness imports odxtools from /repo in-process (ODXTOOLS_VERIF=1 is set but read by nothing)",
               "baseline_off_cmd": "cd /repo && /venv/bin/python -m pytest -ra -q -p no:cacheprovider --timeout=900 --continue-on-collection-errors",
               "source_commits": [], "add_only": True},
